@@ -85,11 +85,27 @@ CHECKS = {
    text="Model checking: laws of JsOps on the grid (a<b == b>a, == symmetric, === implies ==, NaN poisons arithmetic, typeof total, commutativity). Conformance: all pairs of a 34-value (thorough ~80) boundary grid of every primitive type x ~45 operators, all assignment-target forms (global/local/closure variable, member dotted/computed, array element) of compound and update operators, both internal number representations: 54.5k enumerated cells + 1 500 random expression trees in quick; TLC judges type, bits and sign of zero directly where the spec computes the result and through AddOK/MulOK/DivOK/FmodOK/DecimalDenotes/IsShortest where it is a rounded double or its text.",
    design_ref="DESIGN.md 5/C06, notes/C06.md",
    note="Trusted: TLC, BigNat/Dbl predicates (validated against an exact Fraction oracle on 5 449 cases in round 0), wire codec. ** with irrational exact results: only special values and exactly representable results judged."),
+
+ "C04": dict(
+   technique="LexerFSM.tla (lexer as a finite state machine over character classes: termination and position sanity model-checked by TLC) + token-sequence acceptor from JsGrammar; class strings, token soup, corpus prefixes/mutations and the discovered built-in x adversarial-argument grid run on the engine, outcome typing and error positions judged by TLC",
+   text="Model checking: LexerFSM.tla over all strings over 36 character classes up to length 4 (thorough 5-6): every character consumed once, at most one epsilon move per character, positions inside the source, the named deviations explain every difference between the as-is and the reference machine. Conformance: 92.8k class strings concretised and lexed/parsed/evaluated (100k cases), every token sequence of length <= 3 (16.3k; thorough <= 4, 407k) over 25 token classes judged by the acceptor, every prefix of the corpus programs plus seeded truncations/splices/mutations, and every function-valued property discovered at run time on every receiver kind called with every argument vector of length <= 2 from the adversarial grid (211 vectors): TLC judges that the outcome is a value or a member of the JSError family (JsVal!InJSErrorFamily), that a rejection is a JSSyntaxError with line/column inside the source, and the predicted position where the spec predicts one. Quick 204k judged records.",
+   design_ref="DESIGN.md 5/C04, notes/C04.md",
+   note="Trusted: TLC, outcome classifier (harness/engine_child.py). Nesting deeper than the documented recursion limit is out of scope; argument vectors that legitimately allocate huge memory are excluded in the spec's Supported predicate. Recorded finding: 1.toFixed(1) accepted (kept deliberately)."),
+ "C18": dict(
+   technique="Dbl.tla/BigNat.tla/JsNumFmt.tla relational specification of number formatting and parsing (IsShortest, NumberLayout, IsNearestDecimal, DecimalDenotes checked with exact bignum arithmetic, the engine's text/double as certificate); double grid x formatting calls, numeric-string grammar x parsers, Math special values enumerated by TLC, judged by TLC",
+   text="Model checking: laws of Dbl/JsNumFmt on the grid (round trip of shortest digits, correctly rounded parsing, functional predicates). Conformance: doubles 2^k and 10^k over the whole exponent range, neighbours of the notation thresholds, halfway cases, subnormals, 2^53 neighbours, negatives x {implicit, String(), toString(radix), toFixed, toPrecision, toExponential, JSON}; numeric strings from the StringNumericLiteral grammar (signs, white space, radix prefixes, exponents, junk) x {Number, unary +, arithmetic coercion, parseInt x radices, parseFloat}; every Math function x the special-value grid (expected classes: NaN, signed zeros, infinities, domain edges; never raise); seeded random bit patterns. Quick 28.5k judged records.",
+   design_ref="DESIGN.md 5/C18, notes/C18.md",
+   note="Trusted: TLC, BigNat/Dbl predicates. NOT decided (stated limit of the technique): accuracy within one ulp of transcendental Math functions away from the special points; fraction digits of toString(radix) for radices that are not powers of two (ECMA-262 leaves them implementation-approximated)."),
+ "C19": dict(
+   technique="JsJSON.tla (recursive-descent JParse, an independent DFA-plus-stack acceptor, JStringify with cycle detection) with round-trip and grammar-equivalence laws model-checked by TLC; token texts, near-miss mutations and value structures enumerated by TLC, judged by TLC",
+   text="Model checking: Parse(Stringify(v)) = v on JSON-representable v, Stringify(Parse(t)) canonical and idempotent, JParse accepts exactly what the independent acceptor accepts on all enumerated token sequences. Conformance: all token sequences up to length 5/6 over the JSON token vocabulary (accepted and rejected alike), every single-token mutation of valid texts (trailing comma, single quotes, unquoted key, leading zero, lone minus, NaN, Infinity, undefined, control character, bad escape, truncated \\u, lone surrogate escapes), duplicate and __proto__ keys, nesting to 30; value structures of depth <= 3 over a leaf grid incl. non-representable values at every position, cycles of length 1-3: TLC judges parse results structurally (key order), rejection = SyntaxError received by a script catch, stringify text exactly, cycle = catchable TypeError. Quick ~50k judged records.",
+   design_ref="DESIGN.md 5/C19, notes/C19.md",
+   note="Trusted: TLC, JsJSON as a transcription of ECMA-262 25.5 / RFC 8259; number text through JsConv (shared with C18)."),
 }
 NOT_APPLICABLE = {}
 # checks whose quick tier the lead has run green on the current /repo HEAD (three seeds); the others stay listed under
 # not_applicable ("under construction") until verified
-ENABLED = ["C01", "C02", "C03", "C14", "C16", "C17"]
+ENABLED = ["C01", "C02", "C03", "C04", "C05", "C06", "C07", "C09", "C10", "C11", "C12", "C13", "C14", "C15", "C16", "C17", "C18", "C20"]
 ALL = ["C%02d" % i for i in range(1, 21)]
 PENDING_REASON = "check under construction in this round: not yet claimed (no evidence produced); see DESIGN.md section 8"
 
